@@ -496,6 +496,10 @@ func specMapped(m *mappedFile) bool {
 //@   requires $rd == 0 && $lk == 0
 //@   modifies heap
 
+//@ contract (*file).rotate
+//@   requires $rd == 0 && $lk == 0
+//@   modifies heap
+
 //@ contract Open
 //@   requires $rd == 0 && $lk == 0
 //@   allows panic#1: documented API misuse: Open and OpenAndRotate must not both be used in one process
